@@ -522,3 +522,23 @@ def series_changed_through_alias(index, rel, clsname, lanes=("kcals", "fat", "pr
                 if bare:
                     out.append((fn, st, base.id, norm_src(bare[-1].value)))
     return out
+
+
+
+def module_level_one_shot(index, rels):
+    """[(rel, statement, name, [reader function names])]: a module-level name bound to a one-shot iterator (a generator expression in
+    parentheses, zip/map/filter/iter/reversed/enumerate) and iterated by functions of the module: the first call in the process exhausts it,
+    every later run finds it empty"""
+    out = []
+    for rel in rels:
+        mod = index.module(rel)
+        for st in mod.body:
+            if isinstance(st, ast.Assign) and len(st.targets) == 1 and isinstance(st.targets[0], ast.Name):
+                v = st.value
+                if isinstance(v, ast.GeneratorExp) or (isinstance(v, ast.Call) and isinstance(v.func, ast.Name) and v.func.id in ONE_SHOT_BUILTINS):
+                    name = st.targets[0].id
+                    readers = sorted({f.name for f in ast.walk(mod) if isinstance(f, ast.FunctionDef)
+                                      for n in ast.walk(f) if isinstance(n, ast.Name) and n.id == name and isinstance(n.ctx, ast.Load)})
+                    if readers:
+                        out.append((rel, st, name, readers))
+    return out
